@@ -108,6 +108,9 @@ def gen_case(ck: Check, cap: int):
         if sum(len(l) for l in layers) < 8 and rng.random() < 0.85:
             continue
         cfg = graphs.gen_cfg(rng, gd)
+        big = max(len(l) for l in layers)
+        if big > 400 and cfg["batch_size"] < big // 40:
+            cfg["batch_size"] = rng.choice([big // 40 + 1, big // 7 + 1, big + 1])
         opts = {
             "max_layer_size_to_store": rng.choice([None, 1, 3, 1000]),
             "return_all_hashes": rng.random() < 0.5,
